@@ -309,7 +309,12 @@ func (fl *flow) call(c *ssa.CallCommon, d int) string {
 	if sc := c.StaticCallee(); sc != nil {
 		name := fnName(origin(sc))
 		if sc.Signature.Recv() != nil && len(args) > 0 {
-			return args[0] + "." + sc.Name() + "(" + strings.Join(args[1:], ",") + ")"
+			// the method's reference name (a renamed method keeps it, newfn.go)
+			mname := sc.Name()
+			if i := strings.LastIndex(name, "."); i >= 0 && !strings.Contains(name[i+1:], "$") {
+				mname = name[i+1:]
+			}
+			return args[0] + "." + mname + "(" + strings.Join(args[1:], ",") + ")"
 		}
 		if b, ok := c.Value.(*ssa.Builtin); ok {
 			name = b.Name()
